@@ -190,6 +190,27 @@ def run(cx, rep):
         ok = len(assigns) == 2 and saved and s(assigns[1]["right"]) == saved[0] and not [r for r in tsast.walk_no_nested_fn(fn["body"]) if r["type"] == "ReturnStatement" and r["span"]["start"] < assigns[1]["span"]["start"]]
         rep.ob("C12.3", "%s/restores-path" % cn, bool(ok), "%s.reportDecodeError must restore the saved ctx.path before its only exit" % cn, mod.loc(fn))
     # ---------------------------------------------------------------- C12.4
+    # ---------------------------------------------------------------- C12.5
+    rep.rule("C12.5", "branch errors of a union error stay relative to it")
+    # A union error carries the errors of its branches with paths RELATIVE to its own position (the union reporter
+    # resets ctx.path for its branches, the printer joins the paths on the way down).  Moving an error somewhere else
+    # (an object literal that spreads an existing error and overrides `path`) must therefore leave `errors` alone: a
+    # re-based copy of the branch errors points at positions that do not exist in the input.
+    n_rebase = 0
+    for owner, fn in [(k, v) for k, v in mod.functions.items()] + [("%s.%s" % (cn, mn), mm["function"]) for cn, c in mod.classes.items() for mn, mm in c.methods.items()]:
+        if fn.get("body") is None:
+            continue
+        for o in walk(fn):
+            if o["type"] != "ObjectExpression":
+                continue
+            spreads = [p_ for p_ in o["properties"] if p_["type"] == "SpreadElement"]
+            keys = {tsast.prop_key(p_["key"]) for p_ in o["properties"] if p_["type"] == "KeyValueProperty"}
+            if spreads and "path" in keys:
+                n_rebase += 1
+                rep.ob("C12.5", "%s/rebase" % owner, "errors" not in keys,
+                       "%s moves an error (spread + new `path`) and rewrites its nested `errors` as well: branch errors are relative to the union error, so they now address positions that are not in the input" % owner,
+                       mod.loc(o), sample={"fn": owner, "overrides": sorted(keys)})
+    rep.floor("C12.5", "error re-basing sites", n_rebase, 1)
     rep.rule("C12.4", "building and rendering errors cannot throw")
     n = 0
     for m2, rel in ((mod, ts_common.CODEGEN), (cx.ts("packages/beff-client/src/err.ts"), "err.ts")):
